@@ -24,11 +24,13 @@ def main():
     schemas = S.corpus() + S.random_schemas(rep.seed, 2 if quick else 25)
     if quick:
         schemas = [s for s in schemas if s.name in ("prims_le", "hdrs_be", "layout_le")] + schemas[6:]
+    # -O0 first: an access whose result is discarded still happens (at -O1 dead loads vanish and with them the fault
+    # the monitor waits for -- the lesson of C06's compiled-field-beyond-wire-block finding)
     cfgs = [build.Cfg("g++", "17", "plain", defs=("SBEPP_ENABLE_ASSERTS_WITH_HANDLER", "VRT_STEP_COUNTER"),
-                      extra=("-O1", "-fsanitize-coverage=trace-pc"))]
+                      extra=("-O0", "-fsanitize-coverage=trace-pc"))]
     if not quick:
         cfgs.append(build.Cfg("g++", "11", "plain", defs=("SBEPP_ENABLE_ASSERTS_WITH_HANDLER", "VRT_STEP_COUNTER"),
-                              extra=("-O0", "-fsanitize-coverage=trace-pc")))
+                              extra=("-O1", "-fsanitize-coverage=trace-pc")))
         cfgs.append(build.Cfg("g++", "23", "plain", defs=("SBEPP_ENABLE_ASSERTS_WITH_HANDLER", "VRT_STEP_COUNTER"),
                               extra=("-O2", "-fsanitize-coverage=trace-pc")))
     max_full = 700 if quick else 2500
@@ -175,6 +177,8 @@ def main():
                       "faults": faults, "silent": silent, "late": late[:200], "last_assert_in": afunc}}
             if late != "-":
                 rep.count("oob_before_handler", late.count(","))
+                lk = rep.cov.setdefault("oob_before_handler_by_operation", {})
+                lk[op.kind] = lk.get(op.kind, 0) + late.count(",")
             if runaway != "-":
                 rep.count("runaway_cases", runaway.count(","))
             if silent != "-":
